@@ -134,8 +134,8 @@ def handleFqn (j : Json) : Json :=
       match pathTo cur root with
       | none => Json.str "no-such-object"
       | some _ =>
-        -- `fqn_name.split(".")`
-        match fqn (fun o => conf o.cls t) root cur (dotted.splitOn ".") with
+        -- `fqn_name.split(".")` = `Link.splitDots` (specified by C10_split_spec / C10_split_unique)
+        match fqnText (fun o => conf o.cls t) root cur dotted with
         | some o => toJson o.id
         | none => Json.null
     Json.mkObj [("probes", Json.arr outs.toArray)]
